@@ -615,6 +615,52 @@ def r_no_exc_local(ck: Checker) -> None:
         ck.incomplete("R-REG-PAIR", None, None, "no named exception handler found in node.py (1 confirmed by hand)")
 
 
+def r_lookup_key_verbatim(ck: Checker) -> None:
+    """get / get_any answer for the id they are asked about: ids are opaque keys.  Positive pattern: the lookup (helpers of later origin
+    included) reads the registry under a key *computed from* the id (a prefix, the id without its collision counter ...) — the node
+    returned is then one that is registered under another id."""
+    from .state_rules import _raw_functions
+    m_ = ck.repo.mod(NODE)
+    allfns = {q: fn for q, fn, _c in _raw_functions(m_)}
+    todo = [q for q in ("ASTNode.get", "ASTNode.get_any") if q in allfns]
+    seen: set[str] = set()
+    n = 0
+    while todo:
+        q = todo.pop()
+        if q in seen:
+            continue
+        seen.add(q)
+        fn = allfns[q]
+        params = [a.arg for a in fn.args.args if a.arg not in ("cls", "self")]
+        if not params:
+            continue
+        idp = params[0]
+        for c in ast.walk(fn):
+            if isinstance(c, ast.Call) and isinstance(c.func, ast.Name) and c.func.id in allfns and ck.repo.is_new_helper(m_, c.func.id):
+                todo.append(c.func.id)
+        for x in ast.walk(fn):
+            key = None
+            if isinstance(x, ast.Call) and isinstance(x.func, ast.Attribute) and x.func.attr == "get" and dotted(x.func.value) == REG and x.args:
+                key = x.args[0]
+            elif isinstance(x, ast.Subscript) and dotted(x.value) == REG and isinstance(x.ctx, ast.Load):
+                key = x.slice
+            if key is None:
+                continue
+            n += 1
+            what = f"{q}: the registry is read under the id that was asked for, unchanged"
+            k = key
+            if isinstance(k, ast.Name) and k.id != idp:
+                defs = [st.value for st in ast.walk(fn) if isinstance(st, ast.Assign) and any(k.id in {t.id for t in ast.walk(tg) if isinstance(t, ast.Name)} for tg in st.targets)]
+                derived = any(isinstance(y, ast.Name) and y.id == idp for d in defs for y in ast.walk(d)) and any(isinstance(y, ast.Call) for d in defs for y in ast.walk(d))
+                if derived:
+                    ck.violation("R-GET-FORM", (m_.rel, q), x, what, positive=True,
+                                 construct=f"{q}: {norm(x)[:50]} looks up `{k.id}`, a string computed from `{idp}` ({norm(defs[0])[:40]}) — a node registered under another id answers for the one asked about")
+                    return
+            ck.holds("R-GET-FORM", (m_.rel, q), x, what)
+    if n == 0:
+        raise Unsupported("get / get_any: no registry read found", None)
+
+
 def r_reg_pair(ck: Checker) -> None:
     f = ck.repo.func(NODE, "ASTNode.replace")
     sem = PairSem("self")
@@ -842,6 +888,7 @@ def run(ck: Checker) -> None:
     ck.guard("R-REG-FRESH", lambda: r_reg_fresh(ck))
     ck.guard("R-REG-PAIR", lambda: r_reg_pair(ck))
     ck.guard("R-REG-OWN", lambda: r_reg_who(ck))
+    ck.guard("R-GET-FORM", lambda: r_lookup_key_verbatim(ck))
     ck.guard("R-REG-PAIR", lambda: r_no_exc_local(ck))
     from .c10 import r_reg_callers
     ck.guard("R-REG-CALLERS", lambda: r_reg_callers(ck, ncls))
